@@ -17,6 +17,10 @@ class BodyError(Exception):
     pass
 
 
+class BodyBaseError(BaseException):
+    """A block may also be left by an exception that is not an Exception (and not a CancelledError)."""
+
+
 class QSim:
     MAX_VIOL = 8
 
@@ -97,6 +101,9 @@ class QSim:
                 if depth == 0 and c.get("end") == "x":
                     self.stats["fault:body_raises"] += 1
                     raise BodyError(c["label"])
+                if depth == 0 and c.get("end") == "bx":
+                    self.stats["fault:body_raises_base_exception"] += 1
+                    raise BodyBaseError(c["label"])
             finally:
                 if not self.torn:
                     self.exits += 1
@@ -105,11 +112,44 @@ class QSim:
                         c["state"] = "exiting"
                     self._zero_check()
 
+    async def _agen_block(self, c):
+        """The block lives inside an async generator that yields the item; the consumer closes the generator."""
+        q = self.q
+        c["waiting"] = True
+        async with q as item:
+            c["waiting"] = False
+            c["state"] = "inside"
+            self.taken += 1
+            self.ev("enter", c["label"], item, "agen")
+            if item in self.items_seen:
+                self.violate("item_twice", f"item {item} handed out twice")
+            self.items_seen.append(item)
+            try:
+                yield item
+            finally:
+                if not self.torn:
+                    self.exits += 1
+                    self.ev("exit", c["label"], "agen")
+                    c["state"] = "exiting"
+                    self._zero_check()
+
     async def _consumer(self, c):
         c["state"] = "waiting"
         c["waiting"] = False
         try:
-            await self._block(c, 0)
+            if c.get("end") == "gx":
+                self.stats["fault:block_left_by_generator_close"] += 1
+                g = self._agen_block(c)
+                try:
+                    await g.__anext__()
+                    for k in range(c["gates"]):
+                        fut = self.loop.create_future()
+                        self.gates[("b", c["label"], k)] = fut
+                        await fut
+                finally:
+                    await g.aclose()      # GeneratorExit is thrown into the block (also when the consumer fails or is cancelled)
+            else:
+                await self._block(c, 0)
         except CancelledError:
             if not self.torn:
                 c["outcome"] = "cancelled"
@@ -117,7 +157,7 @@ class QSim:
                     self.stats["fault:cancelled_while_waiting"] += 1
                 else:
                     self.stats["fault:cancelled_inside_block"] += 1
-        except BodyError:
+        except (BodyError, BodyBaseError):
             c["outcome"] = "raised"
         except BaseException as e:  # e.g. ValueError: task_done() called too many times
             if not self.torn:
@@ -360,7 +400,7 @@ class QGen:
                 self.clabel += 1
                 st = {"op": "consumer", "c": self.clabel, "g": rng.choice([0, 1, 1, 2])}
                 if rng.random() < 0.15:
-                    st["end"] = "x"
+                    st["end"] = rng.choice(["x", "x", "bx", "gx"])
                 r = rng.random()
                 if r < 0.12:
                     st["nest"] = 1
